@@ -1,0 +1,102 @@
+//go:build verif
+
+package location
+
+// Contracts for the verifier in /verif (comment-only; see /verif/DESIGN.md §3).
+
+//@ guarded_by Locations.mutex: locations
+//@ immutable Locations: mutex
+//@ immutable Location: Name, Upstream, Prefixes, Rewrites, Hosts, ProxyTimeout, ResponseHeader, RequestHeader, Query
+//@ immutable cells(*Location)
+//@ typeinv Locations(ls) by NewLocations: ls.mutex != nil
+
+// specificity class of a location: prefix+host 2, prefix 4, host 6, unconstrained 8
+//@ spec func prioOf(l *Location) int := 8 - ((len(l.Prefixes) != 0) ? 4 : 0) - ((len(l.Hosts) != 0) ? 2 : 0)
+// the memoised priority is either unset or the computed class
+//@ pred memoOK(l *Location) := l.priority.v == 0 || l.priority.v == prioOf(l)
+//@ pred matches(l *Location, host string, url string) :=
+//@      (len(l.Hosts) == 0 || exists i int :: 0 <= i && i < len(l.Hosts) && l.Hosts[i] == host)
+//@   && (len(l.Prefixes) == 0 || exists j int :: 0 <= j && j < len(l.Prefixes) && hasPrefix(url, l.Prefixes[j]))
+//@ pred named(l *Location, names []string) := exists k int :: 0 <= k && k < len(names) && names[k] == l.Name
+//@ pred sortedLocs(list []*Location) := (forall i int :: 0 <= i && i < len(list) ==> list[i] != nil)
+//@   && (forall i, j int :: 0 <= i && i < j && j < len(list) ==> prioOf(list[i]) <= prioOf(list[j]))
+//@ lockinv Locations.mutex(ls) [sorted]: sortedLocs(ls.locations)
+
+//@ func (l *Location) Match(host string, url string) (ok bool)
+//@   requires [recv] l != nil
+//@   nopanic
+//@   ensures [def] ok <==> matches(l, host, url)
+//@   loop 0: invariant [idx] -1 <= $idx && $idx < len(l.Hosts)
+//@   loop 0: invariant [none] forall k int :: 0 <= k && k <= $idx ==> l.Hosts[k] != host
+//@   loop 1: invariant [idx] -1 <= $idx && $idx < len(l.Prefixes)
+//@   loop 1: invariant [none] forall k int :: 0 <= k && k <= $idx ==> !hasPrefix(url, l.Prefixes[k])
+//@   loop 1: invariant [hosts] len(l.Hosts) == 0 || exists i int :: 0 <= i && i < len(l.Hosts) && l.Hosts[i] == host
+
+//@ func (l *Location) getPriority() (p int)
+//@   requires [recv] l != nil
+//@   requires [memo] memoOK(l)
+//@   modifies l.priority.v
+//@   nopanic
+//@   ensures [class] p == prioOf(l) && l.priority.v == prioOf(l)
+
+//@ func (ls *Locations) GetLocations() (list []*Location)
+//@   requires [recv] ls != nil
+//@   requires [unlocked] !anyheld(ls.mutex)
+//@   modifies ls.locations, cells(*Location)
+//@   nopanic
+//@   ensures [sorted] sortedLocs(list)
+
+//@ func (ls *Locations) Get(host string, url string, names ...string) (r *Location)
+//@   requires [recv] ls != nil
+//@   requires [unlocked] !anyheld(ls.mutex)
+//@   modifies ls.locations, cells(*Location)
+//@   nopanic
+//@   ensures [ok] r != nil ==> named(r, names) && matches(r, host, url)
+//@   ensures_local [nil]    r == nil ==> forall i int :: 0 <= i && i < len(locations) ==> !(named(locations[i], names) && matches(locations[i], host, url))
+//@   ensures_local [member] r != nil ==> exists i int :: 0 <= i && i < len(locations) && locations[i] == r
+//@   ensures_local [best]   r != nil ==> forall j int :: 0 <= j && j < len(locations) && named(locations[j], names) && matches(locations[j], host, url) ==> prioOf(r) <= prioOf(locations[j])
+//@   loop 0: invariant [idx]   -1 <= $idx && $idx < len(locations)
+//@   loop 0: invariant [none]  forall i int :: 0 <= i && i <= $idx ==> !(named(locations[i], names) && matches(locations[i], host, url))
+//@   loop 1: invariant [idx]   -1 <= $idx && $idx < len(names) && 0 <= $idx0 + 1 && $idx0 + 1 < len(locations) && item == locations[$idx0 + 1] && item != nil
+//@   loop 1: invariant [outer] forall i int :: 0 <= i && i <= $idx0 ==> !(named(locations[i], names) && matches(locations[i], host, url))
+//@   loop 1: invariant [inner] forall k int :: 0 <= k && k <= $idx ==> !(names[k] == item.Name && matches(item, host, url))
+
+// the comparison used for sorting orders by specificity class, ascending
+//@ func (ls *Locations) Set$1(i int, j int) (less bool)
+//@   requires [ptr] data != nil
+//@   requires [data] 0 <= i && i < len(deref(data)) && 0 <= j && j < len(deref(data)) && deref(data)[i] != nil && deref(data)[j] != nil
+//@   requires [memo] memoOK(deref(data)[i]) && memoOK(deref(data)[j])
+//@   modifies deref(data)[i].priority.v, deref(data)[j].priority.v
+//@   nopanic
+//@   ensures [order] less <==> prioOf(deref(data)[i]) < prioOf(deref(data)[j])
+
+// sort.Slice as used by Set: with the comparison Set$1 (verified above to order by specificity
+// class) it permutes the slice into ascending class order. Assumed (library behaviour).
+// the permutation applied by the sort and its inverse (ghost)
+//@ spec func sortPerm(i int) int
+//@ spec func sortInv(j int) int
+//@ func sortLocations(data []*Location)
+//@   virtual
+//@   requires [elems] forall i int :: 0 <= i && i < len(data) ==> data[i] != nil && memoOK(data[i])
+//@   modifies cells(*Location), atomic.Int32::v
+//@   ensures [sorted] sortedLocs(data)
+//@   ensures [perm]   forall i int :: 0 <= i && i < len(data) ==> 0 <= sortPerm(i) && sortPerm(i) < len(data) && data[i] == old(data[sortPerm(i)])
+//@   ensures [perm2]  forall j int :: 0 <= j && j < len(data) ==> 0 <= sortInv(j) && sortInv(j) < len(data) && data[sortInv(j)] == old(data[j])
+//@   ensures [memo]   forall i int :: 0 <= i && i < len(data) ==> memoOK(data[i])
+
+//@ func (ls *Locations) Set(locations []Location)
+//@   requires [recv] ls != nil
+//@   requires [unlocked] !anyheld(ls.mutex)
+//@   requires [memo] forall i int :: 0 <= i && i < len(locations) ==> memoOK(elemaddr(locations, i))
+//@   modifies ls.locations, cells(*Location), atomic.Int32::v, Location::URLRewriter
+//@   callsite sort.Slice#0: sortLocations(data)
+//@   atunlock [len]        len(ls.locations) == len(locations)
+//@   loop 0: modifies data[*], Location::URLRewriter
+//@   loop 0: invariant [idx]  -1 <= $idx && $idx < len(locations) && len(data) == len(locations) && fresh(data)
+//@   loop 0: invariant [fill] forall k int :: 0 <= k && k <= $idx ==> data[k] == elemaddr(locations, k)
+//@   loop 0: invariant [memo] forall i int :: 0 <= i && i < len(locations) ==> memoOK(elemaddr(locations, i))
+
+// rewrite rules are compiled by the regexp library; their semantics are assumed (DESIGN.md §6 C15)
+//@ func generateURLRewriter(arr []string) (r Rewriter)
+//@   trusted
+//@   nopanic
